@@ -610,6 +610,14 @@ class ChangeOfValueServices(Capability):
     def cancel_subscription(self, cov):
         if _debug: ChangeOfValueServices._debug("cancel_subscription %r", cov)
 
+        # notifications for this subscription that are still waiting for
+        # their turn are withdrawn
+        queue = getattr(self, 'queue_by_address', {}).get(cov.client_addr, None)
+        if queue:
+            for priority, iocb in list(queue.ioQueue.queue):
+                if getattr(iocb, 'cov', None) is cov:
+                    iocb.abort(RuntimeError("subscription cancelled"))
+
         # get the detection algorithm object
         cov_detection = self.cov_detections[cov.obj_ref]
 
